@@ -46,7 +46,13 @@ CLAIM = dict(
     "the regularisation parameter L scaled along - with fixed L its unconverged iterates are not homogeneous: known finding); constant "
     "weight; first-moment bound (also proved, see above); 1-D and thin n x 1 (x 1) grids against the closed form for every method x mobility x L1 mode; "
     "front-end = back-end; EMD single-cell moves, symmetry, scaling, first-moment bound.",
-    note="Not covered: convergence of Newton/Bregman to the minimum (C04/C08 own the solver internals); the certified lower bound is the dual of "
+    note="Not covered: convergence of Newton/Bregman to the minimum (C04/C08 own the solver internals; flagged-converged runs are only "
+    "required to lie within 25 % above the scipy minimum of their own functional - measured 4 % Newton, 11 % Bregman); mass-only scaling is "
+    "enforced for Newton (1e-5) and on thin grids, for Bregman it is a BOUNDED known finding (unconverged <= 100 %, flagged-converged <= 15 %, "
+    "measured 66 % / 4.7 %); min_symm/min_smul/min_weight_smul are conditional on a given minimum of a rational-valued seminorm cost; "
+    "dispatch_total covers nine tabulated spellings; EMD.__call__ internals (normalisation, float32 signatures, cv2.EMD) are not modelled, "
+    "only its rescaling formula and its observable laws; per-rule exact duals (one dual vector per quadrature point) are not implemented: "
+    "the certified lower bound is the dual of "
     "the midpoint-rule cost (tight to 0.2 % for CONSTANT_CELL_PROJECTION, 6-16 % below the scipy upper bound for the Gauss / corner rules, "
     "whose exact dual needs one dual vector per quadrature point); cv2.EMD itself.",
     technique="Lean 4 proof (algebra of the cost functional and constraint) + metamorphic oracle on the real solvers + 1-D closed-form correspondence",
@@ -58,6 +64,9 @@ METHODS = {"newton": "newton", "bregman": "bregman", "cv2emd": "cv2.emd", "newto
            "cv2emdUpper": "CV2.EMD", "sinkhorn": "sinkhorn", "emd": "emd", "empty": ""}
 TOL_EXACT = 1e-9   # swap, power-of-two scaling, identical: the iterations are equivariant up to rounding (observed <= 2e-15)
 TOL_GEN = 1e-7     # generic scaling factors: input rounding 1e-16 amplified through <= 200 iterations (observed <= 2e-15)
+TOL_MASSONLY_NEWTON = 1e-5  # masses scaled, absolute clamp eps NOT scaled: unconverged Newton/SUBCELL runs on compact data deviate by 1e-7
+CONVERGED_OVER_MIN = 0.25   # flagged-converged runs vs scipy minimum of the same functional: measured <= 0.10 (Bregman), <= 0.03 (Newton)
+BREGMAN_FIXED_L_BOUND = {False: 1.0, True: 0.15}  # measured: unconverged <= 0.66, flagged-converged (tolerances 1e-6..1e-8) <= 0.047
 TOL_TIE = 1e-9     # returned distance vs independently recomputed cost of the returned flux
 TOL_FEAS = 1e-8    # mass conservation of the returned flux relative to max|rhs| (direct linear solves; observed <= 1e-13)
 
@@ -203,6 +212,14 @@ def gen_pair(rng, shape, kind):
     return m1.reshape(shape, order="F"), m2.reshape(shape, order="F")
 
 
+def bregman_scale_signature(e, both_converged):
+    """the known finding is bounded: a larger deviation has a different signature and is a violation"""
+    kind = "converged" if both_converged else "unconverged"
+    bound = BREGMAN_FIXED_L_BOUND[both_converged]
+    pct = f"{int(round(bound * 100))}%"
+    return f"C05:scale:bregman:fixed-L:{kind}:dev<={pct}" if e <= bound else f"C05:scale:bregman:fixed-L:{kind}:dev>{pct}"
+
+
 def run_case(cfg):
     """All clauses for one (grid, pair, method, modes). Returns dict(fails=[(sig, what, replay)], n=#solves, stats)."""
     import darsia as d
@@ -298,15 +315,28 @@ def run_case(cfg):
         stats[f"max_scale_{tag}_err"] = e
         if e > tol:
             fail(f"C05:scale:{tag}:{method}", f"{cls} grid {shape}: d(s m1, s m2)/s = {float(rr[0]) / s!r} for s={s!r} but d(m1,m2)={dist!r}", distance=dist, s=s, scaled=float(rr[0]))
-    if method == "bregman" and cfg.get("fixedL"):
+    # (vi') the statement as written: ONLY the masses are scaled, every solver parameter stays at its value
+    if cfg.get("fixedL"):
         s = cfg["pow2"]
-        rr = go(s * m1, s * m2, L=1.0)
-        if not isinstance(rr, Raised):
+        rr = go(s * m1, s * m2, L=1.0, reg=1.0)
+        if isinstance(rr, Raised):
+            fail(f"C05:scale:mass-only:raises:{method}", f"{cls}: scaled pair raises {rr}")
+        else:
             e = abs(float(rr[0]) / s - dist) / max(dist, scale)
-            stats["max_scale_fixedL_err"] = e
-            if e > TOL_GEN and not thin:
-                fail("C05:scale:bregman:fixed-L", f"{cls} grid {shape}: with fixed L=1, d(s m1, s m2)/s = {float(rr[0]) / s!r} for s={s!r} but d(m1,m2)={dist!r} "
-                     f"(converged={info.get('converged')}/{rr[1].get('converged')})", distance=dist, s=s, scaled=float(rr[0]))
+            both = bool(info.get("converged")) and bool(rr[1].get("converged"))
+            if method == "newton":
+                # Newton's regularisation is relative except for the absolute clamp `regularization` (default eps)
+                stats["max_scale_massonly_newton_err"] = e
+                if e > TOL_MASSONLY_NEWTON:
+                    fail("C05:scale:mass-only:newton", f"{cls} grid {shape}: d(s m1, s m2)/s = {float(rr[0]) / s!r} for s={s!r} but d(m1,m2)={dist!r} "
+                         f"(all solver parameters fixed)", distance=dist, s=s, scaled=float(rr[0]))
+            else:
+                stats["max_scale_fixedL_err" + ("_converged" if both else "")] = e
+                if e > TOL_GEN and not thin:
+                    fail(bregman_scale_signature(e, both), f"{cls} grid {shape}: with fixed L=1, d(s m1, s m2)/s = {float(rr[0]) / s!r} for s={s!r} but "
+                         f"d(m1,m2)={dist!r} (relative deviation {e:.3g}, converged={info.get('converged')}/{rr[1].get('converged')})", distance=dist, s=s, scaled=float(rr[0]))
+                elif e > 1e-8 and thin:
+                    fail("C05:scale:bregman:fixed-L:thin", f"{cls} thin grid {shape}: mass-only scaling deviates by {e:.3g} although the flux is unique", distance=dist, s=s)
     # (vii) constant weight
     k = cfg["weight"]
     rw = go(m1, m2, L=1.0, weight=k * np.ones(shape), reg=k)
@@ -511,6 +541,11 @@ def emd_oracle(ctx, d):
                      f"but a fresh pair gives {g!r}", rp)
         if not (np.array_equal(ia.img, m1) and np.array_equal(ib.img, m2)):
             ctx.fail("C05:EMD:modifies-input", f"EMD.__call__ changed the caller's images (sum {float(np.sum(ia.img))!r}, was {float(m1.sum())!r})", rp)
+        # the `preprocess` hook: an identity routine and one returning a copy must not change the value (also via the front-end)
+        pv = [call(call(d.EMD, lambda im: im), image(d, m1, dims), image(d, m2, dims)),
+              call(d.wasserstein_distance, image(d, m1, dims), image(d, m2, dims), "cv2.emd", preprocess=lambda im: im.copy())]
+        if any(isinstance(v, Raised) for v in pv) or any(abs(float(v) - g) > 1e-4 * sc for v in pv):
+            ctx.fail("C05:EMD:preprocess", f"EMD with an identity preprocess routine gives {[v if isinstance(v, Raised) else float(v) for v in pv]!r}, without {g!r}", rp)
         b = call(e, image(d, m2, dims), image(d, m1, dims))
         s = rng.choice((2.0, 8.0, 3.7))
         gs = call(e, image(d, s * m1, dims), image(d, s * m2, dims))
@@ -791,10 +826,53 @@ def bf_case(cfg):
             out["fails"].append((f"C05:general:raises:mobility={mob}:{method}", f"grid {shape}: {method} raises {r}: {str(r.exc)[:100]}", rp))
             continue
         dist = float(r[0])
-        out["runs"].append((method, mob, l1, ni, dist, bool(r[1].get("converged"))))
+        conv = bool(r[1].get("converged"))
+        out["runs"].append((method, mob, l1, ni, dist, conv))
+        # the reported distance is the cost of a mass-conserving flux also for these (mostly unconverged) runs
+        try:
+            U_axes = recover_flux(r[1]["flux"], shape)
+            rhs = (m2 - m1) * float(np.prod(hs))
+            res = float(np.max(np.abs(divergence(U_axes, shape, hs) - rhs))) / max(float(np.max(np.abs(rhs))), 1e-300)
+            ci = cost_indep(d, U_axes, shape, hs, l1)
+            out["tie"] = max(out.get("tie", 0.0), abs(ci - dist) / max(dist, 1e-300))
+            out["feas"] = max(out.get("feas", 0.0), res)
+            if res > TOL_FEAS:
+                out["fails"].append((f"C05:flux-not-mass-conserving:{method}", f"{method}:{mob}:{l1} grid {shape} ({ni} iterations): returned flux violates div u = m2 - m1 by {res:.3e}", {**rp, "residual": res}))
+            elif abs(ci - dist) > TOL_TIE * max(dist, lbf, 1e-300):
+                out["fails"].append((f"C05:distance-not-cost-of-flux:{method}", f"{method}:{mob}:{l1} grid {shape} ({ni} iterations): distance {dist!r} but cost of the returned flux is {ci!r}", {**rp, "distance": dist, "cost": ci}))
+        except Exception as e:  # noqa: BLE001
+            out["fails"].append((f"C05:info-flux:{method}", f"cannot use info['flux']: {type(e).__name__}: {e}", rp))
+        # from above: a run flagged converged must be near the brute-force minimum of ITS cost functional (upper bound from scipy);
+        # the fixed points depend on the mobility mode (observed up to 10 % above the minimum), hence the loose factor
+        ub = out["ub"].get(l1)
+        if conv and ub:
+            out.setdefault("over_ub", {}).setdefault(method, 0.0)
+            out["over_ub"][method] = max(out["over_ub"][method], (dist - ub) / ub)
+            if dist > ub * (1 + CONVERGED_OVER_MIN):
+                out["fails"].append((f"C05:converged-far-above-minimum:{method}", f"{method}:{mob}:{l1} grid {shape}: run flagged converged returns {dist!r}, more than "
+                                     f"{int(CONVERGED_OVER_MIN * 100)} % above the brute-force minimum {ub!r} of the same cost functional", {**rp, "distance": dist, "upper_bound_of_minimum": ub}))
         if dist < lbf * (1 - 1e-9) - 1e-14:
             out["fails"].append((f"C05:below-certified-minimum:{method}", f"{method}:{mob}:{l1} grid {shape} ({ni} iterations, converged={r[1].get('converged')}): distance {dist!r} is below the "
                                  f"certified lower bound {lbf!r} of the discrete minimum (dual certificate, see replay)", {**rp, "distance": dist, "lower_bound": lbf, "certificate": out["cert"]["req"]}))
+    # Bregman driven to its stopping criteria (looser tolerances, many iterations), masses scaled only
+    if cfg.get("bregman_converged"):
+        o = options("RAVIART_THOMAS", "CELL_BASED", 2500, L=1.0, extra={"tol_residual": 1e-6, "tol_increment": 1e-6, "tol_distance": 1e-6})
+        r1 = solve(d, m1, m2, dims, "bregman", o)
+        r4 = solve(d, 4.0 * m1, 4.0 * m2, dims, "bregman", o)
+        out["n"] += 2
+        rp = {"shape": list(shape), "hs": hs, "m1": m1.tolist(), "m2": m2.tolist(), "method": "bregman", "mob": "CELL_BASED", "l1": "RAVIART_THOMAS", "num_iter": 2500}
+        if isinstance(r1, Raised) or isinstance(r4, Raised):
+            out["fails"].append(("C05:scale:mass-only:raises:bregman", f"grid {shape}: {r1 if isinstance(r1, Raised) else r4}", rp))
+        else:
+            both = bool(r1[1].get("converged")) and bool(r4[1].get("converged"))
+            e = abs(float(r4[0]) / 4.0 - float(r1[0])) / max(float(r1[0]), 1e-300)
+            out["bregman_converged"] = (both, e)
+            if e > TOL_GEN:
+                out["fails"].append((bregman_scale_signature(e, both), f"bregman:CELL_BASED:RAVIART_THOMAS grid {shape}, tolerances 1e-6, fixed L=1: d(4 m1, 4 m2)/4 = {float(r4[0]) / 4!r} "
+                                     f"but d(m1,m2) = {float(r1[0])!r} (relative deviation {e:.3g}, converged={r1[1].get('converged')}/{r4[1].get('converged')})", {**rp, "s": 4.0}))
+            for rr, sc in ((r1, 1.0), (r4, 4.0)):
+                if float(rr[0]) / sc < lbf * (1 - 1e-9):
+                    out["fails"].append(("C05:below-certified-minimum:bregman", f"grid {shape}: converged Bregman distance {float(rr[0]) / sc!r} below the certified bound {lbf!r}", rp))
     return out
 
 
@@ -820,7 +898,7 @@ def bruteforce(ctx):
             for _ in range(2):
                 runs.append((method, rng.choice(MOB), rng.choice(L1), rng.choice((3, 10))))
                 runs.append((method, rng.choice(MOB), rng.choice(L1), 200))
-        cfgs.append(dict(shape=list(shape), hs=hs, m1=m1.tolist(), m2=m2.tolist(), runs=runs, seeds=ctx.pick(1, 4)))
+        cfgs.append(dict(shape=list(shape), hs=hs, m1=m1.tolist(), m2=m2.tolist(), runs=runs, seeds=ctx.pick(1, 4), bregman_converged=(i < ctx.pick(2, 6) and int(np.prod(shape)) <= 6)))
     with mp.get_context("fork").Pool(min(16, max(2, mp.cpu_count()))) as pool:
         res = pool.map(bf_case_safe, cfgs, chunksize=1)
     reqs = [r["cert"]["req"] for r in res if r["cert"]]
@@ -849,7 +927,14 @@ def bruteforce(ctx):
             if lbf > 0:
                 slack.append((dist - lbf) / lbf)
     ctx.cov.setdefault("correspondence", {})["dual-certificates(exact check by the Lean model)"] = {"cases": len(reqs), "disagreements": bad}
-    ctx.cov["bruteforce"] = {"grids": len(cfgs), "certified": len(reqs), "max_relative_gap_upper_vs_certified_lower_bound_by_L1_mode": gaps,
+    over = {}
+    for r in res:
+        for mth, v in r.get("over_ub", {}).items():
+            over[mth] = max(over.get(mth, -1.0), v)
+    ctx.cov["bruteforce"] = {"grids": len(cfgs), "certified": len(reqs), "max_tie_err": max([r.get("tie", 0.0) for r in res] or [0.0]),
+                             "max_feas_residual": max([r.get("feas", 0.0) for r in res] or [0.0]),
+                             "max_converged_distance_over_scipy_minimum_by_method": over,
+                             "bregman_driven_to_convergence(mass-only x4)": [r["bregman_converged"] for r in res if "bregman_converged" in r], "max_relative_gap_upper_vs_certified_lower_bound_by_L1_mode": gaps,
                              "min_relative_slack_distance_over_lower_bound": min(slack) if slack else None, "solver_runs": sum(r["n"] for r in res)}
     if bad:
         ctx.mark("TIE-BROKEN", {"correspondence": "dual-certificates", "request": first[0], "model": first[1], "expected": first[2], "n_diffs": bad})
@@ -860,11 +945,11 @@ def make_cases(ctx):
     cases = []
     general = [(2, 2), (2, 3), (3, 3), (3, 4), (4, 5), (2, 2, 2), (3, 2, 2), (1, 3, 3), (3, 3, 1), (2, 1, 3)]
     if ctx.big:
-        general += [(5, 6), (6, 6), (3, 3, 3), (2, 3, 4), (8, 10)]
+        general += [(5, 6), (6, 6), (3, 3, 3), (2, 3, 4), (8, 10), (12, 15), (6, 6, 6)]  # up to 216 cells
     thin = [(5,), (9,), (6, 1), (1, 7), (4, 1, 1), (1, 5, 1), (1, 1, 6), (12,), (1, 40), (40, 1)]
     combos = list(itertools.product(("newton", "bregman"), MOB, L1))
     rng.shuffle(combos)
-    n_general = ctx.pick(10, 70)
+    n_general = ctx.pick(8, 70)
     n_thin = ctx.pick(14, 70)
     for i in range(n_general + n_thin):
         is_thin = i >= n_general
@@ -875,7 +960,7 @@ def make_cases(ctx):
         m1, m2 = gen_pair(rng, shape, rng.choice(("positive", "positive", "compact")))
         big = int(np.prod(shape)) > 40
         cases.append(dict(shape=list(shape), hs=hs, m1=m1.tolist(), m2=m2.tolist(), method=method, l1=l1, mob=mob,
-                          num_iter=(40 if big else rng.choice((25, 60, 200))) if not is_thin else 60,
+                          num_iter=((12 if int(np.prod(shape)) > 100 else 40) if big else rng.choice((25, 60, 200))) if not is_thin else 60,
                           pow2=rng.choice((0.25, 4.0, 64.0)), gen=rng.choice((3.7, 0.37, 11.0)), weight=rng.choice((2.0, 0.5, 1.5, 3.3)),
                           fixedL=(not is_thin and i % 3 == 0)))
     return cases
@@ -903,7 +988,11 @@ def run(ctx):
         ctx.write_gen("QuadratureTables", c15.emit(ex, c15.tabulate_corners(d), l1))
         ctx.cov["quadrature_tables"] = "re-extracted from the current source (C15 generator)"
     except Exception as e:  # noqa: BLE001
+        # NOT silent: the theorems are then about the committed table, which may no longer be what the code computes; the
+        # rule_facts_oracle below still tests the running rules directly
         ctx.cov["quadrature_tables"] = f"committed table kept ({type(e).__name__}: {str(e)[:120]})"
+        ctx.notes.append("QuadratureTables could not be re-extracted from the current source: first-moment / duality theorems refer to the committed table")
+        ctx.log("NOTE QuadratureTables not regenerated:", type(e).__name__, str(e)[:160])
     ctx.prove("C05")
     # dispatch table: model (generated) vs implementation, and the statement on the implementation
     lines = [f"dispatch {k}" for k in METHODS]
